@@ -261,3 +261,31 @@ def int_const(node):
             and isinstance(node.operand.value, int):
         return -node.operand.value
     return None
+
+
+class _Renamer(ast.NodeTransformer):
+    def __init__(self, mapping):
+        self.mapping = mapping
+
+    def visit_Name(self, node):
+        if node.id in self.mapping:
+            return ast.copy_location(ast.Name(id=self.mapping[node.id], ctx=node.ctx), node)
+        return node
+
+
+def src_with(node, mapping):
+    """Source text of *node* with the local names of *mapping* (actual -> canonical) substituted:
+    lets a rule compare expressions independently of how the analysed code names its locals."""
+    if node is None:
+        return None
+    if not mapping:
+        return src(node)
+    import copy as _copy
+    return src(_Renamer(mapping).visit(_copy.deepcopy(node)))
+
+
+def single_def(fn, name):
+    """Value expression of the only assignment `name = <expr>` in fn, else None."""
+    vals = [s.value for s in walk_local(fn) if isinstance(s, ast.Assign) and len(s.targets) == 1
+            and isinstance(s.targets[0], ast.Name) and s.targets[0].id == name]
+    return vals[0] if len(vals) == 1 else None
